@@ -72,6 +72,7 @@ namespace hs
         std::size_t no_blocks = 4;
         unsigned    vary      = 0;
         std::size_t mbs_n     = 0; // != 0: build with block_size = min_block_size(node_size or bytes, mbs_n)
+        bool        raii      = false; // stacks: markers are memory_stack_raii_unwind objects
     };
 
     // A request failed in a way the interface allows: exception (what kind) or null from a try_ function.
